@@ -557,8 +557,11 @@ pub fn step(case: &mut Case, solo: &Solo, probe: bool) -> Step {
         None
     };
     case.block = Some(block);
-    let after_in: Vec<usize> = case.ins.iter().map(|p| p.backlog()).collect();
-    let after_out: Vec<usize> = case.outs.iter().map(|p| p.available()).collect();
+    // After a panic inside a stream operation its state mutex is poisoned:
+    // the accounting calls below would panic too.
+    let panicked = matches!(verdict, Verdict::Panic(_));
+    let after_in: Vec<usize> = if panicked { before_in.clone() } else { case.ins.iter().map(|p| p.backlog()).collect() };
+    let after_out: Vec<usize> = if panicked { before_out.clone() } else { case.outs.iter().map(|p| p.available()).collect() };
     let consumed: Vec<usize> = before_in.iter().zip(&after_in).map(|(b, a)| b.saturating_sub(*a)).collect();
     let produced: Vec<usize> = before_out.iter().zip(&after_out).map(|(b, a)| a.saturating_sub(*b)).collect();
     let activity = consumed.iter().any(|&c| c > 0) || produced.iter().any(|&p| p > 0);
